@@ -585,11 +585,10 @@ func adversarialSortInputs(thorough bool) [][]int {
 		out = append(out, ol)
 	}
 	// quicksort-killer inputs generated by McIlroy's adversary against a port of the same algorithm
-	for _, n := range []int{13, 50, 100, 257, 600, 1500} {
-		if n > maxLen {
-			continue
+	for n := 13; n <= maxLen; n += 1 + n/100 {
+		for fill := -1; fill < 12; fill++ {
+			out = append(out, antiQuicksort(n, fill))
 		}
-		out = append(out, antiQuicksort(n))
 	}
 	return out
 }
